@@ -86,9 +86,19 @@ def prereq_view(itask):
     return out
 
 
+def forced_keys(itask):
+    out = []
+    for pre in itask.state.prerequisites:
+        for k, v in pre.items():
+            if v == "force satisfied":
+                out.append([int(str(k.point)), k.task, k.output])
+    return out
+
+
 def task_view(itask):
     st = itask.state
     return {
+        "fsat": forced_keys(itask),
         "id": tid(itask), "obj": id(itask), "status": st.status, "held": bool(st.is_held),
         "queued": bool(st.is_queued), "runahead": bool(st.is_runahead),
         "flows": sorted(itask.flow_nums), "submit_num": itask.submit_num,
@@ -207,7 +217,7 @@ def patch():
             it = _OWNER.get(id(self))
             ev("state", id=tid(it) if it is not None else None, obj=id(it),
                old=list(old), new=[self.status, self.is_held, self.is_queued, self.is_runahead],
-               forced=bool(k.get("forced")),
+               forced=bool(k.get("forced") or (len(a) > 4 and a[4])),
                manual=bool(getattr(it, "is_manual_submit", False)),
                wojp=bool(getattr(it, "waiting_on_job_prep", False)))
         return r
@@ -249,6 +259,57 @@ def patch():
            active=sorted([k, v] for k, v in counter.items()))
         return r
     TaskPool.release_queued_tasks = n_rel
+
+    o_ldb = TaskPool._load_db_task_proxy
+
+    def n_ldb(self, point, taskdef, flow_nums, status="waiting", flow_wait=False, transient=False,
+              is_manual_submit=False, submit_num=0):
+        r = o_ldb(self, point, taskdef, flow_nums, status, flow_wait, transient, is_manual_submit, submit_num)
+        if r is not None and transient:
+            ev("transient", t=task_view(r))
+        return r
+    TaskPool._load_db_task_proxy = n_ldb
+
+    o_fs = TaskProxy.force_satisfy
+
+    def n_fs(self, prereqs, set_all=False):
+        before = prereq_view(self)
+        r = o_fs(self, prereqs, set_all)
+        after = prereq_view(self)
+        new = [ka for pb, pa in zip(before, after) for (kb, vb), (ka, va) in zip(pb, pa) if va and not vb]
+        ev("force_sat", id=tid(self), obj=id(self), new=new)
+        return r
+    TaskProxy.force_satisfy = n_fs
+
+    o_sap = TaskState.set_all_task_prerequisites_satisfied
+
+    def n_sap(self):
+        it = _OWNER.get(id(self))
+        before = prereq_view(it) if it is not None else []
+        r = o_sap(self)
+        if it is not None:
+            after = prereq_view(it)
+            new = [ka for pb, pa in zip(before, after) for (kb, vb), (ka, va) in zip(pb, pa) if va and not vb]
+            ev("force_sat", id=tid(it), obj=id(it), new=new)
+        return r
+    TaskState.set_all_task_prerequisites_satisfied = n_sap
+
+    from cylc.flow import commands as _cmds
+    o_rmt = _cmds._remove_matched_tasks
+
+    def n_rmt(schd, ids, flow_nums, warn_unremovable=True):
+        ev("cmd_remove", ids=sorted([int(i["cycle"]), i["task"]] for i in ids), flows=sorted(flow_nums))
+        r = o_rmt(schd, ids, flow_nums, warn_unremovable)
+        ev("cmd_remove_end")
+        return r
+    _cmds._remove_matched_tasks = n_rmt
+
+    o_qot = TaskPool.queue_or_trigger
+
+    def n_qot(self, itask):
+        ev("manual", id=tid(itask), obj=id(itask))
+        return o_qot(self, itask)
+    TaskPool.queue_or_trigger = n_qot
 
     o_hold = TaskPool.hold_tasks
 
@@ -701,6 +762,7 @@ async def run_scenario(scn: dict, home: Path) -> dict:
         for tick in range(max_ticks):
             world.tick = tick
             meta["ticks"] = tick + 1
+            ev("tick", n=tick)
             for o in ops.get(tick, []):
                 ev("op", op=o)
                 if o["cmd"] == "crash":
@@ -728,7 +790,6 @@ async def run_scenario(scn: dict, home: Path) -> dict:
                 ev("deliver", id=i, submit_num=sn, message=m)
                 world.sent[(tuple(i), sn, m)] = seq
                 schd.message_queue.put(TaskMsg(jt, "2020-01-01T00:00:00Z", "INFO", m))
-            ev("tick", n=tick)
             n0 = len(REC)
             alive = await sess.tick()
             if pending_crash is not None:
